@@ -1365,7 +1365,7 @@ class SymmetryAnalyzer(object):
                         # continue with next position.
                         if (
                             self._search_periodic_positions(
-                                np.dot(W, M) + C, R, cell, 1e-3
+                                np.dot(W, M) + C, R, cell, precision
                             )
                             is None
                         ):
